@@ -181,6 +181,23 @@ def run(chk, repo, tier):
                                     okg = ba is not None and ba[0] == 'idx' and ba[2] == key and \
                                         key + order == nf.index(nf.attr(gain, 'shape'), C(0))
                                     det = f'img_cube[{fmt(key)}] = img_cube[{fmt(ba[2]) if ba else "?"}]**{fmt(order)}'
+            if not okg:
+                # the loop written over views of the rows (`for plane, order in zip(cube, orders): plane **= order`): the
+                # cube at the end of an iteration is the cube with row k replaced by row k ** order(k)
+                for lp in p.state.loops:
+                    for ends in lp['ends']:
+                        for nm, v in ends.items():
+                            va = v.single_atom() if isinstance(v, Poly) else None
+                            if va is None or not is_app(va, 'setitem') or not isinstance(va[2][2], Poly):
+                                continue
+                            key, val = va[2][1], va[2][2]
+                            pa = val.single_atom()
+                            if pa is not None and is_app(pa, 'pow') and isinstance(key, Poly):
+                                base, order = pa[2]
+                                ba = base.single_atom() if isinstance(base, Poly) else None
+                                if ba is not None and ba[0] == 'idx' and ba[2] == key:
+                                    okg = key + order == nf.index(nf.attr(gain, 'shape'), C(0))
+                                    det = f'cube[{fmt(key)}] = cube[{fmt(key)}]**{fmt(order)}'
             chk.ob('C16-g', 'N-identity', fa.key, 'row d of the power cube gets exponent model_order - d', okg, det, fa.loc())
     # C16-h
     cap = S('saturation_capacity')
